@@ -17,12 +17,16 @@ RULE = ('every form x hole x inner form (expression trees of depth two), operato
         'leaf kind, re.compile calls, random trees of depth<=6; each rendered by colorize_pyval in block mode '
         '(linelen/maxlines unlimited), inline mode, and under linelen in {5,20,80} x maxlines in {1,3,7}; the text '
         '(gettext of the docutils tree, wrap markers removed) is parsed back by ast.parse and compared after '
-        'normalisation. An expression is non-trivial if it has at least one operator/container/call node; distinct '
-        'by source text.')
+        'normalisation. Part E: every depth-one form, literal leaf and annotation of the signature pool is placed in each display '
+        'position of a real module (constant value at module and class level, variable/class-variable/instance-variable '
+        'annotation, type alias, decorator argument, base-class subscript); what format_constant_value / type2stan / '
+        'format_decorators / format_class_signature show is read back and compared (string annotations unquoted except inside '
+        'any spelling of Literal[...]). An expression is non-trivial if it has at least one operator/container/call node; '
+        'distinct by source text (and position in part E).')
 ASSUME = ['CPython ast.parse is the reference reader of the displayed text',
           'documented spelling changes only: quotes, number formatting, set([..]), redundant parentheses; regexes compared by parse tree + flags',
           'truncated outputs are judged for their marking only']
-DECIDING = {'rendered_block': 20000, 'rendered_inline': 20000, 'parsed_back': 40000, 'truncated_outputs': 500,
+DECIDING = {'display_positions_compared': 600, 'rendered_block': 20000, 'rendered_inline': 20000, 'parsed_back': 40000, 'truncated_outputs': 500,
             'wrapped_outputs': 500}
 CPU_S = 900
 
@@ -43,7 +47,148 @@ def cases(tier: str, seed: int) -> List[Dict[str, Any]]:
     nrand = 5000 if tier == 'quick' else 120000
     for k in range(0, nrand, 500):
         out.append({'part': 'random', 'seed': seed, 'k': k, 'n': 500})
+    exprs, anns = _e_pool()
+    for lo in range(0, len(exprs), 40):
+        out.append({'part': 'E', 'what': 'expr', 'lo': lo, 'hi': lo + 40})
+    for lo in range(0, len(anns), 12):
+        out.append({'part': 'E', 'what': 'ann', 'lo': lo, 'hi': lo + 12})
     return out
+
+
+# ---- part E: the display positions of the real pipeline ----------------------------------------------
+# (constant value, variable / class-variable / instance-variable annotation, type alias, decorator argument, base-class
+#  expression) -- what the page shows, read back, against the source expression (string annotations unquoted, Literal kept)
+
+def _e_pool() -> Tuple[List[str], List[str]]:
+    from vf.gen import signature
+    exprs = [src for _, src in G.depth1()] + [src for _, src in G.leaves()][:120] + ['(a + b) * f(x, k=[1, 2])', 'a if b else c', '-(-1)', 'a ** -b', '(a, b)[0]', 'x[1:2, ::3]']
+    return exprs, list(signature.ANNOTATIONS)
+
+
+class _Unstring(ast.NodeTransformer):
+    """the documented treatment of string annotations: parsed and shown unquoted, except inside Literal[...]"""
+
+    def visit_Subscript(self, n: ast.Subscript) -> Any:
+        v = self.visit(n.value)
+        if (isinstance(v, ast.Name) and v.id == 'Literal') or (isinstance(v, ast.Attribute) and v.attr == 'Literal'):
+            return ast.Subscript(value=v, slice=n.slice, ctx=n.ctx)
+        return ast.Subscript(value=v, slice=self.visit(n.slice), ctx=n.ctx)
+
+    def visit_Constant(self, n: ast.Constant) -> Any:
+        if isinstance(n.value, str):
+            return self.visit(ast.parse(n.value, mode='eval').body)
+        return n
+
+
+def _strip_tags(html: str) -> str:
+    import html as _html
+    import re as _re
+    return _html.unescape(_re.sub(r'<[^>]*>', '', html.replace('<br />', '\n')))
+
+
+def _run_E(case: Dict[str, Any], res: core.Res) -> None:
+    import re as _re
+    from pydoctor import model, epydoc2stan
+    from pydoctor.templatewriter import pages
+    from pydoctor.stanutils import flatten
+    from twisted.web.template import tags
+    exprs, anns = _e_pool()
+    exprs = exprs[case['lo']:case['hi']] if case['what'] == 'expr' else []
+    anns = anns[case['lo']:case['hi']] if case['what'] == 'ann' else []
+    lines = ['import typing as t', 'import typing, typing_extensions, typing_extensions as te', 'from typing import *']
+    items: List[Tuple[str, str, str, str]] = []      # (position, object name, source expression, 'expr'|'ann')
+    for i, e in enumerate(exprs):
+        if _roundtrips(e, ('inline',)) is not True or '\n' in e or 'yield' in e or 'await' in e:
+            res.c('display_skipped_judged_by_main_part')
+            continue
+        lines.append(f'CONST_{i} = {e}')
+        items.append(('constant-value', f'CONST_{i}', e, 'expr'))
+        lines.append(f'@deco_{i}({e})\ndef dec_{i}(): pass')
+        items.append(('decorator-argument', f'dec_{i}', e, 'expr'))
+        lines.append(f'class Base_{i}(Root[{e}]): pass')
+        items.append(('base-class', f'Base_{i}', e, 'expr'))
+        lines.append(f'class Holder_{i}:\n    CV_{i} = {e}')
+        items.append(('constant-value', f'Holder_{i}.CV_{i}', e, 'expr'))
+    for i, a in enumerate(anns):
+        try:
+            exp = _Unstring().visit(ast.parse(a, mode='eval').body)
+            ast.unparse(exp)
+        except (SyntaxError, ValueError):
+            continue
+        lines.append(f'var_{i}: {a} = 1')
+        items.append(('variable-annotation', f'var_{i}', a, 'ann'))
+        lines.append(f'class K_{i}:\n    cv_{i}: {a} = 1\n    def __init__(self):\n        self.iv_{i}: {a} = 1')
+        items.append(('variable-annotation', f'K_{i}.cv_{i}', a, 'ann'))
+        items.append(('variable-annotation', f'K_{i}.iv_{i}', a, 'ann'))
+        lines.append(f'Alias_{i}: TypeAlias = {a}')
+        items.append(('type-alias', f'Alias_{i}', a, 'ann'))
+    system = model.System()
+    system.options.verbosity = -10
+    b = system.systemBuilder(system)
+    src = '\n'.join(lines) + '\n'
+    b.addModuleString(src, 'disp')
+    b.buildModules()
+    for pos, name, e, kind in items:
+        o = system.allobjects.get('disp.' + name)
+        w = {'position': pos, 'expression': e, 'object': name}
+        if o is None:
+            try:
+                dotted = all(isinstance(x, (ast.Name, ast.Attribute, ast.Load)) for x in ast.walk(ast.parse(e, mode='eval').body))
+            except (SyntaxError, ValueError):
+                dotted = False
+            if dotted:
+                res.c('display_plain_name_is_an_alias_not_a_value')     # `X = a.b` is documented as an alias of a.b, by design
+                continue
+            res.v(f'C15:display:{pos}:object-missing', f'{name} ({pos} of {e!r}) is not documented', **w)
+            continue
+        try:
+            if pos in ('constant-value', 'type-alias'):
+                html = flatten(epydoc2stan.format_constant_value(o))
+                m = _re.search(r'<pre class="constant-value"><code>(.*?)</code></pre>', html, _re.S)
+                shown = _strip_tags(m.group(1)) if m else None
+            elif pos == 'variable-annotation':
+                t = epydoc2stan.type2stan(o)
+                shown = _strip_tags(flatten(t)) if t is not None else None
+            elif pos == 'decorator-argument':
+                html = flatten(tags.transparent(*pages.format_decorators(o)))
+                shown = _strip_tags(html).strip()
+                shown = shown[len(f'@deco_{name.split("_")[1]}('):-1] if shown.startswith('@deco_') else shown
+            else:
+                html = flatten(pages.format_class_signature(o))
+                shown = _strip_tags(html).strip()
+                shown = shown[len('(Root['):-2] if shown.startswith('(Root[') else shown
+        except Exception as ex:  # noqa: BLE001
+            res.v(f'C15:display:{pos}:raises:{type(ex).__name__}', f'{pos} of {e!r} raised {ex!r}', **w)
+            continue
+        res.c('display_positions_compared')
+        res.c(f'display_{pos}')
+        if shown is None:
+            res.v(f'C15:display:{pos}:not-shown', f'{pos} of {e!r}: nothing is displayed', **w)
+            continue
+        flat = shown.replace(WRAP + '\n', '').replace(WRAP, '')
+        try:
+            exp_tree = ast.parse(e, mode='eval').body
+            if kind == 'ann':
+                exp_tree = _Unstring().visit(exp_tree)
+            if pos == 'base-class' or pos == 'decorator-argument':
+                # a parenthesised tuple in a subscript / a lone argument is the same tree with or without the parentheses
+                got = ast.parse(f'Root[{flat}]' if pos == 'base-class' else f'f({flat})', mode='eval').body
+                exp_tree = ast.parse(f'Root[{e}]' if pos == 'base-class' else f'f({e})', mode='eval').body
+            else:
+                got = ast.parse(flat, mode='eval').body
+        except (SyntaxError, ValueError) as ex:
+            res.v(f'C15:display:{pos}:unreadable', f'{pos} of {e!r} is displayed as {shown!r}, which does not read back ({ex})', shown=shown, **w)
+            continue
+        d = N.first_diff(N.norm(ast.fix_missing_locations(exp_tree)), N.norm(got))
+        if d is not None and pos == 'type-alias':
+            # the value of an alias is an expression like any other: showing it as written (inner strings kept) is "the same expression" too
+            d = N.first_diff(N.norm(ast.parse(e, mode='eval').body), N.norm(got))
+        if d is not None:
+            res.v(f'C15:display:{pos}:differs', f'{pos} of {e!r} is displayed as {shown!r}: {d}', shown=shown, **w)
+    res.c('evaluations', len(items))
+    for pos, name, e, kind in items[:400]:
+        res.distinct(f'E|{pos}|{e}')
+    res.sample({'part': 'E', 'what': case['what'], 'range': [case['lo'], case['hi']]})
 
 
 def worker_init() -> None:
@@ -272,6 +417,9 @@ def _judge(res: core.Res, name: str, src: str) -> None:
 def run_case(case: Dict[str, Any]) -> core.Res:
     res = core.Res()
     part = case['part']
+    if part == 'E':
+        _run_E(case, res)
+        return res
     if part == 'random':
         r = core.rng(case['seed'], 'C15', case['k'])
         items = [(f'random{i}', G.random_expr(r, r.randint(2, 6))) for i in range(case['n'])]
